@@ -42,14 +42,14 @@ type File struct {
 	Snaplen  uint32
 	LinkType layers.LinkType
 	// pcapng
-	Section   pcapgo.NgSectionInfo
-	Ifaces    []pcapgo.NgInterface
-	IfaceAt   []int // number of packets written before interface i was added
-	Mixed     bool  // interfaces have different link types (reader needs WantMixedLinkType)
-	HasStats  bool
-	Stats     map[int]pcapgo.NgInterfaceStatistics
-	WriteErr  string
-	Features  map[string]bool
+	Section  pcapgo.NgSectionInfo
+	Ifaces   []pcapgo.NgInterface
+	IfaceAt  []int // number of packets written before interface i was added
+	Mixed    bool  // interfaces have different link types (reader needs WantMixedLinkType)
+	HasStats bool
+	Stats    map[int]pcapgo.NgInterfaceStatistics
+	WriteErr string
+	Features map[string]bool
 }
 
 var linkTypes = []layers.LinkType{layers.LinkTypeEthernet, layers.LinkTypeRaw, layers.LinkTypeLinuxSLL, layers.LinkTypeNull, layers.LinkTypeIEEE802_11}
